@@ -304,6 +304,11 @@ func insertArrayValue(target []r.Element, idx int, insertItem r.Element) []r.Ele
 
 	if idx < 0 {
 		idx = len(target) + idx
+		// a position before the first item inserts at the front (as a position
+		// beyond the last item appends)
+		if idx < 0 {
+			idx = 0
+		}
 	}
 	result = append(result, target[:idx]...)
 	result = append(result, insertItem)
